@@ -1,3 +1,13 @@
 -------------------------- MODULE MC_Accounting --------------------------
 EXTENDS Accounting
+P(a, x, n) == [a |-> a, x |-> x, n |-> n]
+NoPrefix == << <<>> >>
+\* pool histories whose backing size depends on the alignment: reservations that are not multiples of it, a released
+\* middle reservation, a re-alignment before any reservation
+PoolPrefixes == <<
+  <<P("newPool", 1, 0), P("reserve", 1, 100), P("reserve", 1, 40), P("reserve", 1, 300), P("release", 1, 2)>>,
+  <<P("newPool", 1, 0), P("reserve", 1, 100), P("reserve", 1, 300)>>,
+  <<P("newPool", 1, 0), P("reserve", 1, 40), P("align", 1, 512)>>,
+  <<P("newPool", 1, 0), P("align", 1, 32), P("reserve", 1, 100), P("reserve", 1, 40)>> >>
+SimPrefixes == << <<>>, <<P("newPool", 1, 0), P("reserve", 1, 100)>>, <<P("newPool", 1, 0), P("reserve", 1, 100), P("reserve", 1, 40), P("reserve", 1, 300), P("release", 1, 2)>> >>
 =========================================================================
